@@ -170,7 +170,11 @@ func serializeURL(value string) string {
 		case ')':
 			mapped = `\)`
 		default:
-			mapped = string(c)
+			if c <= 0x1F || c == 0x7F { // non-printable characters are not allowed in an unquoted url
+				mapped = fmt.Sprintf("\\%X ", c)
+			} else {
+				mapped = string(c)
+			}
 		}
 		chuncks.WriteString(mapped)
 	}
